@@ -329,3 +329,17 @@ def establishes_empty(fact, var):
             if op == "NotEq":
                 return pol is False
     return False
+
+
+def module_resolver(program, module):
+    """name -> constant value of a module-level binding (for the finite-domain
+    interpreter); KeyError when not statically evaluable."""
+    ev = Evaluator(program, module)
+
+    def resolve(name):
+        if name in module.assigns and len(module.assign_nodes.get(name, [])) == 1:
+            v = ev.lookup(name)
+            if v is not TOP:
+                return v
+        raise KeyError(name)
+    return resolve
